@@ -179,20 +179,63 @@ def relativedelta(dt1=None, dt2=None, **kw):
 
 
 # ---- dateutil.parser.parse -----------------------------------------------------------------------
-def parse(text, *a, **kw):
+def iso_fields(y, a, b, dayfirst, O):
+    """dateutil's reading of 'YYYY-AA-BB': month AA, day BB; with dayfirst=True day AA, month BB whenever BB can be a month"""
+    if dayfirst:
+        swap = b <= 12
+        return y, O.ite(swap, b, a), O.ite(swap, a, b)
+    return y, a, b
+
+
+def parse(text, *args, **kw):
     if not isinstance(text, SymStr):
         from dateutil.parser import parse as real
-        return real(text, *a, **kw)
-    # contract: an ISO 'YYYY-MM-DD' text gives midnight of that date; anything else is refused as dateutil's
-    # ParserError (a ValueError).  Only the ISO shape is in the claim.
+        return real(text, *args, **kw)
+    # contract: an ISO 'YYYY-MM-DD' text gives midnight of that date (dayfirst as in iso_fields, validated against the
+    # real parser at start-up); anything else is outside the model.
+    dayfirst = bool(kw.pop('dayfirst', False))
+    if args or kw:
+        raise E.Unsupported('parse_date options %r on a symbolic text' % (sorted(kw),))
     cells = text.cells
     if len(cells) != 10 or not (text[4] == '-') or not (text[7] == '-'):
         raise E.Unsupported('parse_date of a symbolic text that is not YYYY-MM-DD')
-    y, m, d = parse_int(text[0:4]), parse_int(text[5:7]), parse_int(text[8:10])
+    y, a, b = parse_int(text[0:4]), parse_int(text[5:7]), parse_int(text[8:10])
+    y, m, d = iso_fields(_t(y), _t(a), _t(b), dayfirst, _Z3Ops)
+    y, m, d = SymInt(z3.simplify(y)), SymInt(z3.simplify(m)), SymInt(z3.simplify(d))
     ok = mkbool(z3.simplify(valid_term(y, m, d)))
     if not bool(ok):
         raise ValueError('day is out of range for month')
     return SymDate(y, m, d)
+
+
+def validate_parse():
+    """iso_fields against the real dateutil parser for every month/day text, both dayfirst settings"""
+    from dateutil.parser import parse as real
+    n = 0
+    bad = []
+    for dayfirst in (False, True):
+        for a in range(1, 13):
+            for b in range(1, 32):
+                try:
+                    _RealDate(2004, a, b)
+                except ValueError:
+                    continue
+                txt = '2004-%02d-%02d' % (a, b)
+                try:
+                    r = real(txt, dayfirst=dayfirst)
+                    got = (r.year, r.month, r.day)
+                except ValueError:
+                    got = None
+                y, m, d = iso_fields(2004, a, b, dayfirst, _PyOps)
+                try:
+                    _RealDate(y, m, d)
+                    want = (y, m, d)
+                except ValueError:
+                    want = None
+                n += 1
+                if got != want:
+                    bad.append((txt, dayfirst, got, want))
+    return n, bad
 
 
 # ---- validation of the arithmetic core against the real dateutil -------------------------------------
